@@ -294,7 +294,9 @@ class Gen(object):
                 if inner:
                     m = n if (n in inner and self.rng.random() < 0.5) else \
                         self.rng.choice(inner)
-                    a = self.inj_fcall(m, env, 1, nest=self.rng.random() < 0.25)
+                    # one level only: every use of a parameter copies the argument's SQL,
+                    # F(F(F(F(x)))) with 5 uses each is 625 copies of a correlated sub-query
+                    a = self.inj_fcall(m, env, 1, nest=False)
                     self.labels.add('inj_fun_call_nested')
                     if m == n:
                         self.labels.add('inj_fun_call_nested_same')
